@@ -274,6 +274,21 @@ func (d *dataRun) codecCase(c DataCase, out map[string]interface{}) {
 			}
 			return reflect.ValueOf(p)
 		}
+	case strings.HasPrefix(shape, "thriftdoc:"):
+		typ = reflect.TypeOf(ThriftDoc{})
+		gen = func() reflect.Value {
+			doc := ThriftDoc{Author: d.rstr(1+d.rnd.Intn(40), alnum+specials) + "é世", Nums: []int64{}, Blob: []byte{}}
+			n := map[string]int{"thriftdoc:small": 3, "thriftdoc:big": 3000}[shape]
+			for i := 0; i < n; i++ {
+				doc.Nums = append(doc.Nums, d.rnd.Int63()-d.rnd.Int63())
+			}
+			doc.Nums = append(doc.Nums, math.MaxInt64, math.MinInt64, 0)
+			if shape == "thriftdoc:big" {
+				doc.Blob = make([]byte, 70000)
+				d.rnd.Read(doc.Blob)
+			}
+			return reflect.ValueOf(doc)
+		}
 	case shape == "thriftempty":
 		typ = reflect.TypeOf(codec.ThriftEmpty{})
 		gen = func() reflect.Value { return reflect.ValueOf(codec.ThriftEmpty{}) }
@@ -318,6 +333,37 @@ func (d *dataRun) codecCase(c DataCase, out map[string]interface{}) {
 			out["got"] = clip([]byte(fmt.Sprintf("%+v", dst.Elem().Interface())))
 			out["want"] = clip([]byte(fmt.Sprintf("%+v", src.Elem().Interface())))
 		}
+		return
+	}
+	if c.S("kind") == "interleave" {
+		// the encoding of a value stays what it is while other values are encoded: encode A, encode B, encode A2,
+		// then decode the three encodings (not copied) and compare
+		vals := []reflect.Value{src, reflect.New(typ), reflect.New(typ)}
+		vals[1].Elem().Set(gen())
+		vals[2].Elem().Set(gen())
+		var encs [][]byte
+		for i, v := range vals {
+			b, err := cd.Marshal(v.Interface())
+			if err != nil {
+				out["err"] = fmt.Sprintf("marshal %d: %v", i, err)
+				return
+			}
+			encs = append(encs, b)
+		}
+		eq := true
+		for i, v := range vals {
+			dst := reflect.New(typ)
+			if err := cd.Unmarshal(encs[i], dst.Interface()); err != nil {
+				out["err"] = fmt.Sprintf("unmarshal %d: %v", i, err)
+				return
+			}
+			if !normEqual(v.Elem(), dst.Elem()) {
+				eq = false
+				out["got"] = clip([]byte(fmt.Sprintf("value %d: %+v", i, dst.Elem().Interface())))
+				out["want"] = clip([]byte(fmt.Sprintf("%+v", v.Elem().Interface())))
+			}
+		}
+		out["equal"] = eq
 		return
 	}
 	// garbage: decode hostile bytes into a destination surrounded by sentinels
